@@ -137,6 +137,11 @@ func deref(s *string) string {
 }
 
 // newSim creates the trunk of a room.
+// simCreateVersionOverride, when set, is written into the create event's
+// content.room_version instead of the real version (only room versions whose
+// create-event auth rule ignores that member accept such a room).
+var simCreateVersionOverride string
+
 func newSim(r *gen.Rand, ver gmsl.RoomVersion) (*sim, *simBranch) {
 	t := ref.Traits(string(ver))
 	s := &sim{ver: ver, t: t, impl: gmsl.MustGetRoomVersion(ver), r: r, all: map[string]gmsl.PDU{}, users: simUsers, equalTS: r.Chance(0.3)}
@@ -144,6 +149,9 @@ func newSim(r *gen.Rand, ver gmsl.RoomVersion) (*sim, *simBranch) {
 	cc := ref.O("creator", ref.S(creator), "room_version", ref.S(string(ver)))
 	if t.PrivCreators && r.Chance(0.5) {
 		cc.Set("additional_creators", ref.A(ref.S(simUsers[1])))
+	}
+	if simCreateVersionOverride != "" {
+		cc.Set("room_version", ref.S(simCreateVersionOverride))
 	}
 	ps := protoSpec{Type: "m.room.create", StateKey: strp(""), Sender: creator, RoomID: fmt.Sprintf("!sim%d:origin.example", r.Intn(1<<30)), Content: gen.Plain().Bytes(cc), Depth: 1}
 	if t.Domainless {
